@@ -1563,6 +1563,8 @@ where
                 }
             }
         }
+        let peer_is_gossipsub = connected_peer.kind.is_gossipsub();
+
         // Only topics the peer is recorded as subscribed to can be grafted.
         let grafted_topics = topics.len();
         topics.retain(|topic| connected_peer.topics.contains(topic));
@@ -1574,6 +1576,12 @@ where
         // we don't GRAFT to/from explicit peers; complain loudly if this happens
         if self.explicit_peers.contains(peer_id) {
             tracing::warn!(peer=%peer_id, "GRAFT: ignoring request from direct peer");
+            return;
+        }
+
+        // floodsub peers are never part of a mesh
+        if !peer_is_gossipsub {
+            tracing::warn!(peer=%peer_id, "GRAFT: ignoring request from floodsub peer");
             return;
         }
 
